@@ -100,8 +100,10 @@ def probe_tightening(inp: Dict[str, Any]) -> Dict[str, Any]:
         r = _run_cfg(names, method, e, cfg)
         errs.append(float(np.max(np.abs(r["Etot"] - ref["Etot"]))))
     bad = []
+    sp2_eps = (CONFIGS[cfg].get("sp2") or [False, 0.0])[1] if (CONFIGS[cfg].get("sp2") or [False])[0] else 0.0
     for e, err in zip(ladder, errs):
-        if err > max(1e-9, 50 * e):
+        # SP2 stops at its own tolerance, which is part of the requested thresholds
+        if err > max(1e-9, 50 * max(e, sp2_eps)):
             bad.append(f"eps={e:g}: |E - E_limit| = {err:.3e} > 50 eps")
     for i in range(1, len(errs)):
         if errs[i] > max(errs[i - 1] * 1.5, 1e-9):
